@@ -170,19 +170,29 @@ theorem starts_closeCalls (pg : Page) (r : Nat) (st : St) (n : Nat) : starts (cl
 /-- the status code `finalize` / `bare_error` left in `output_status` is a legal one -/
 def OutOk (s : St) : Prop := ∃ c, s.out = some c ∧ 100 ≤ c ∧ c ≤ 599
 
+/-- the generated table of valid statuses lies inside 100..599 (a source change that widens
+    `valid_status` changes the table and breaks this obligation) -/
+theorem valid_bounds (c : Nat) (h : inRanges CpModel.Gen.Pipeline.validStatusRanges c = true) : 100 ≤ c ∧ c ≤ 599 := by
+  simp [inRanges, CpModel.Gen.Pipeline.validStatusRanges] at h
+  omega
+
 theorem finalize_ok (pg : Page) (s : St) (h : (finalize pg s).exn = none) : OutOk (finalize pg s).st := by
   unfold finalize at h ⊢
   generalize statusCode s = code at h ⊢
   simp only [] at h ⊢
-  by_cases hc : code < 100 ∨ 599 < code
-  · simp [hc] at h
-  · simp only [hc, if_false] at h ⊢
-    have hb : 100 ≤ code ∧ code ≤ 599 := by omega
+  by_cases hc : inRanges CpModel.Gen.Pipeline.validStatusRanges code = true
+  · simp only [hc, Bool.not_true, Bool.false_eq_true, if_false] at h ⊢
+    have hb : 100 ≤ code ∧ code ≤ 599 := valid_bounds code hc
     split
     · exact ⟨_, rfl, hb⟩
     · split
       · rename_i h1 h2; simp [h1, h2] at h
       · split <;> exact ⟨_, rfl, hb⟩
+  · have hc' : inRanges CpModel.Gen.Pipeline.validStatusRanges code = false := by
+      cases hh : inRanges CpModel.Gen.Pipeline.validStatusRanges code with
+      | true => exact absurd hh hc
+      | false => rfl
+    simp [hc'] at h
 
 theorem andThen_of_none {a : R} {f : St → R} (he : a.exn = none) :
     a.andThen f = { j := a.j ++ (f a.st).j, st := (f a.st).st, exn := (f a.st).exn } := by
@@ -461,9 +471,10 @@ theorem finalize_out (pg : Page) (s : St) (h : (finalize pg s).exn = none) :
   unfold finalize at h ⊢
   generalize statusCode s = code at h ⊢
   simp only [] at h ⊢
-  by_cases hc : code < 100 ∨ 599 < code
-  · simp [hc] at h
-  · simp only [hc, if_false] at h ⊢
+  cases hc : inRanges CpModel.Gen.Pipeline.validStatusRanges code with
+  | false => simp [hc] at h
+  | true =>
+    simp only [hc, Bool.not_true, Bool.false_eq_true, if_false] at h ⊢
     split
     · rfl
     · split
@@ -658,7 +669,7 @@ example : (runRequest { handler := { out := .exc },
                         hooks := fun p => if p = .beforeErrorResponse then [⟨1, 50, false, .httpRedirect 303⟩] else [] }
             .get false false).st.out = some 303 := by decide
 
-/-! ### tracebacks off ⇒ no traceback / exception text — false in two ways (F1, F2), true otherwise -/
+/-! ### tracebacks off ⇒ no traceback / exception text — false in one way (F2), true otherwise -/
 
 def showsTb : BodyK → Bool
   | .errorPage tb _ => tb
@@ -678,7 +689,7 @@ def leaks (res : Result) : Bool := showsTb res.body || showsMsg res.body || res.
     Request object) the response never contains traceback text or the exception message. -/
 def C01_no_leak_full : Prop := ∀ p : Plan, (call p).reqShowTb = false → leaks (call p) = false
 
-/-- F1 witness: `/p0` raises `InternalRedirect('/p0')` with `show_tracebacks` off everywhere. -/
+/-- Former F1 witness (repaired): `/p0` raises `InternalRedirect('/p0')` with `show_tracebacks` off. -/
 def witnessF1 : Plan :=
   { pages := [{ showTb := false, handler := { out := .internalRedirect 0 } }], globalTb := false }
 
@@ -686,10 +697,25 @@ def witnessF1 : Plan :=
 def witnessF2 : Plan :=
   { pages := [{ showTb := false, handler := { out := .exc }, errorPage := .cbFail }], globalTb := false }
 
-/-- **F1**: the trapper-level 500 after the request was released shows the traceback. -/
-theorem C01_no_leak_full_false_F1 :
-    (call witnessF1).reqShowTb = false ∧ leaks (call witnessF1) = true ∧ (call witnessF1).body = .bare true := by
+/-- **F1 repaired**: the trapper-level 500 of the redirect loop no longer shows the traceback. -/
+theorem C01_F1_witness_repaired :
+    (call witnessF1).trappedAtInit = true ∧ (call witnessF1).reqShowTb = false ∧
+      (call witnessF1).body = .bare false ∧ leaks (call witnessF1) = false := by
   decide
+
+/-- the trapper's answer after the release shows the traceback iff the released request's
+    `show_tracebacks` was on -/
+theorem C01_trapper_honours_released_flag (p : Plan) (h : (call p).trappedAtInit = true) :
+    (call p).body = .bare (call p).reqShowTb := by
+  unfold call at h ⊢
+  generalize redirector p.pages p.noHost p.globalTb (p.pages.length + 2) [] p.start p.meth p.badQuery 0 = res at h ⊢
+  obtain ⟨j, red⟩ := res
+  cases red with
+  | outOfFuel => simp at h
+  | raised e tb => simp only [trapCatches, if_true]
+  | served st pg r =>
+    simp only at h
+    split at h <;> simp at h
 
 /-- **F2**: the failing `error_page` callable's exception text is pasted into the page. -/
 theorem C01_no_leak_full_false_F2 :
@@ -699,8 +725,8 @@ theorem C01_no_leak_full_false_F2 :
 
 theorem C01_no_leak_full_false : ¬ C01_no_leak_full := by
   intro h
-  have := h witnessF1 C01_no_leak_full_false_F1.1
-  rw [C01_no_leak_full_false_F1.2.1] at this
+  have := h witnessF2 C01_no_leak_full_false_F2.1
+  rw [C01_no_leak_full_false_F2.2.1] at this
   cases this
 
 /-- Invariant of the response state of one Request object: a traceback is shown only if the request's
@@ -896,21 +922,23 @@ theorem redirector_served (pages : List Page) (nh g : Bool) (fuel : Nat) :
       | exc => exact trivial
 
 /-- **C01_no_leak_partial**: with `show_tracebacks` off on the last Request object, the response
-    carries no traceback text and no exception message — provided the answer was not produced by the
-    trapper after the request had been released (F1) and no page uses an `error_page` callable that
-    raises (F2).  Covers the error pages of `HTTPError.set_response`, `bare_error` in `Request.run`,
-    the trapper's mid-stream 500 (the request is still current there), custom error responses, HEAD. -/
+    carries no traceback text and no exception message — provided no page uses an `error_page` callable
+    that raises (F2).  Covers the error pages of `HTTPError.set_response`, `bare_error` in `Request.run`,
+    the trapper's 500 before the callable returns (the released request's flag) and mid-stream (the
+    current request's flag), custom error responses, HEAD. -/
 theorem C01_no_leak_partial (p : Plan) (hoff : (call p).reqShowTb = false)
-    (hF1 : (call p).trappedAtInit = false) (hF2 : ∀ pg ∈ p.pages, pg.errorPage ≠ .cbFail) :
+    (hF2 : ∀ pg ∈ p.pages, pg.errorPage ≠ .cbFail) :
     leaks (call p) = false := by
   have hS := redirector_served p.pages p.noHost p.globalTb (p.pages.length + 2) [] p.start p.meth p.badQuery 0
   have hfuel := fuel_sufficient p
-  unfold call at hoff hF1 hfuel ⊢
-  generalize redirector p.pages p.noHost p.globalTb (p.pages.length + 2) [] p.start p.meth p.badQuery 0 = res at hS hoff hF1 hfuel ⊢
+  unfold call at hoff hfuel ⊢
+  generalize redirector p.pages p.noHost p.globalTb (p.pages.length + 2) [] p.start p.meth p.badQuery 0 = res at hS hoff hfuel ⊢
   obtain ⟨j, red⟩ := res
   cases red with
   | outOfFuel => simp at hfuel
-  | raised e tb => simp [trapCatches] at hF1
+  | raised e tb =>
+    simp only [trapCatches, if_true] at hoff ⊢
+    simp [leaks, showsTb, showsMsg, hoff]
   | served st pg r =>
     obtain ⟨⟨h1, h2⟩, hmem⟩ := hS
     have hcb : errorPageOf pg st ≠ .cbFail := by
@@ -936,7 +964,6 @@ theorem C01_no_leak_partial (p : Plan) (hoff : (call p).reqShowTb = false)
 /-- non-vacuity of `C01_no_leak_partial`: a failing handler with tracebacks off, answered by the
     ordinary error page -/
 example : (call { pages := [{ showTb := false, handler := { out := .exc } }] }).reqShowTb = false ∧
-    (call { pages := [{ showTb := false, handler := { out := .exc } }] }).trappedAtInit = false ∧
     (call { pages := [{ showTb := false, handler := { out := .exc } }] }).body = .errorPage false false := by
   decide
 
